@@ -9,7 +9,7 @@ for L in A B; do
   DEMO=$(cd $WT/SEED/$L && ls *_test.go 2>/dev/null | head -1)
   OUT=$(/verif/lib/validate_seed.sh $WT $WT/SEED/$L $PKG $DEMO $EXTRA 2>&1 | tail -2)
   echo "## $PID-$L validate: $OUT"
-  echo "$OUT" | grep -q "^VALID" || continue
+  echo "$OUT" | grep -q "^VALID" || { KEEP=1; continue; }
   NEEDS=$(python3 - "$WT/SEED/$L/notes.md" <<'PY'
 import sys,re
 t=open(sys.argv[1]).read()
@@ -37,4 +37,5 @@ json.dump(m,open(p,'w'),indent=1)
 PY
 done
 [ -f $WT/SEED/PREEXISTING.md ] && cp $WT/SEED/PREEXISTING.md /verif/seeded/$PID-PREEXISTING.md
+[ -n "$KEEP" ] && { echo "## $PID: worktree kept (an invalid seed needs a look)"; exit 0; }
 git -C /repo worktree remove --force $WT
